@@ -16,7 +16,7 @@ EXPLANATION = (
     "slots; it also reports whether the floating-point control state is saved (R2); stacks are mapped and unmapped with "
     "the same size and guard-page adjustment, and a thread object is recycled into the heap it is taken from (R3).")
 ASSUMPTIONS = ["the x86-64 Linux assembly backend is the one compiled (PIKA_HAVE_BOOST_CONTEXT off, checked)", "System V AMD64 ABI: rbx, rbp, r12-r15 and the MXCSR/x87 control bits are callee-saved"]
-FLOORS = {"C12.R1": 3, "C12.R2": 6, "C12.R3": 2, "C12.R4": 2, "C12.R5": 1}
+FLOORS = {"C12.R1": 3, "C12.R2": 6, "C12.R3": 2, "C12.R4": 2, "C12.R5": 1, "C12.R6": 12}
 
 TD = "pika::threads::detail::thread_data"
 CB = "pika::threads::coroutines::detail::context_base"
@@ -215,6 +215,13 @@ def run(rep, tier):
         rep.ok("C12.R3", rc[0], "create_thread_object and recycle_thread map stack sizes to the same heaps: %s" % sorted(t1))
     else:
         rep.bad("C12.R3", rc[0], rc[0].loc, "heap-selection", "a thread object can be recycled into a heap for another stack size than the one it is taken from (create: %s, recycle: %s): a task would run on a stack of the wrong size" % (t1, t2))
+
+    # ---- R6: the size a task's stack is allocated with is the configured one
+    rep.rule("C12.R6", "K8 (cache of configuration entries): runtime_configuration keeps the configured stack size of each class in a member that thread_manager, the queues and the "
+             "stack allocator read through get_stack_size(); the constructor and reconfigure() re-read all four with the reader of their own class after every merge of "
+             "configuration sources (post_initialize_ini), and get_stack_size(class) hands out the member of that class")
+    from .common import stack_size_cache_rule
+    stack_size_cache_rule(rep, "C12.R6")
 
     # ---- R5: a recycled object is owned exclusively before the queue lock is let go
     rep.rule("C12.R5", "K1/K2 (exclusive ownership of a reused object and its stack): in thread_queue::create_thread_object a thread object looked at in a recycle heap "
